@@ -417,7 +417,7 @@ struct runner
       std::size_t total = 0;
       for (auto const &m : model)
         total += count_nodes(m);
-      unsigned op = static_cast<unsigned>(g.below(25));
+      unsigned op = static_cast<unsigned>(g.below(27));
       if (total > 45 && op < 8)
         op = 8 + op % 5; // keep forests small: bias towards removing operations
       char const *inner = pa.empty() ? "root" : "inner";
@@ -750,6 +750,25 @@ struct runner
         opname = "compare-reshaped";
       }
       break;
+      case 25:
+      case 26:
+      {
+        // self operands (through a second reference, as they arise in generic code): the node is what it was
+        T &alias = ta;
+        if (op == 25)
+        {
+          vf::extend_case(" self_copy_assign(%s)", pstr(ra, pa).c_str());
+          ta = std::as_const(alias);
+          opname = "self-copy-assign";
+        }
+        else
+        {
+          vf::extend_case(" self_swap(%s)", pstr(ra, pa).c_str());
+          ta.swap(alias);
+          opname = "self-swap";
+        }
+      }
+      break;
       case 23:
       {
         // independence of copies: copy a node, mutate the copy, the source must not change (checked by verify)
@@ -1050,7 +1069,7 @@ void body()
         "tree/op/move-ctor-to-root", "tree/op/move-ctor-to-child", "tree/op/pop_back-subtree", "tree/op/pop_front-subtree",
         "tree/op/pop_back-empty", "tree/op/erase", "tree/op/erase-range", "tree/op/erase-range-empty",
         "tree/op/release-subtree", "tree/op/release-and-reattach", "tree/op/clear", "tree/op/sort", "tree/op/sort-predicate",
-        "tree/op/value-set", "tree/op/swap-root-root", "tree/op/swap-inner-inner", "tree/op/swap-root-inner",
+        "tree/op/value-set", "tree/op/self-copy-assign", "tree/op/self-swap", "tree/op/swap-root-root", "tree/op/swap-inner-inner", "tree/op/swap-root-inner",
         "tree/op/swap-inner-root", "tree/op/copy-assign-inner-related", "tree/op/copy-assign-inner-unrelated",
         "tree/op/copy-assign-root-unrelated", "tree/op/copy-assign-root-related", "tree/op/copy-assign-inner-unrelated-grows",
         "tree/op/move-assign-inner-inner", "tree/op/move-assign-root-inner", "tree/op/move-assign-inner-root",
